@@ -208,6 +208,14 @@ class Forall:
         return hit[1]
 
 
+class Via:
+    """Cut rule: `facts` are proved from the path condition, `goal` from the facts alone (small nonlinear VC)."""
+
+    def __init__(self, facts, goal):
+        self.facts = [_b(f) for f in facts]
+        self.goal = _b(goal)
+
+
 def flatten_goal(goal):
     """-> (plain z3 Bools, Foralls)"""
     plain, qs = [], []
@@ -215,7 +223,9 @@ def flatten_goal(goal):
     def rec(g):
         if g is None:
             return
-        if isinstance(g, Forall):
+        if isinstance(g, Via):
+            plain.append(g)
+        elif isinstance(g, Forall):
             qs.append(g)
         elif isinstance(g, (list, tuple)):
             for x in g:
